@@ -117,6 +117,7 @@ type Machine struct {
 	harness   string
 	initDone  bool
 	exitCode  *int
+	exitOK    bool
 	lastModel sym.Model
 	strTokens []string
 	fnStack   []*ssa.Function
@@ -147,6 +148,7 @@ func (m *Machine) resetPath(prefix []int32) {
 	m.env = nil
 	m.vfs = nil
 	m.exitCode = nil
+	m.exitOK = false
 	m.lastModel = nil
 	m.strTokens = defaultTokens
 	m.fnStack = m.fnStack[:0]
